@@ -161,10 +161,12 @@ when_kernel Gzx.Gen.K04b.decFindErrorMagnitudes in
 /-- data words to encode: (data ++ zeros, ecBytes) -/
 def encSamples16 : List (List Nat × Nat) :=
   [([5, 11, 2, 0, 0, 0, 0], 4), ([0, 0, 1, 0, 0], 2), ([15, 0, 0, 0, 0, 0, 0], 6), ([1, 2, 3, 4, 5, 6, 7, 8, 9, 0, 0, 0, 0, 0], 5),
-   ([0, 0, 0, 0, 0], 2), ([1, 2, 3], 0), ([1, 2], 2), ([], 1), ([1, 17, 0, 0], 2), ([9, 9, 9, 9, 7, 7, 7], 3)]
+   ([0, 0, 0, 0, 0], 2), ([1, 2, 3], 0), ([1, 2], 2), ([], 1), ([1, 17, 0, 0], 2), ([9, 9, 9, 9, 7, 7, 7], 3),
+   ([0, 0, 0, 7, 7, 7], 3), ([0, 0, 1, 9, 9], 2), ([0, 1, 0, 5, 6, 7, 8], 4), ([0, 0, 0, 0, 3, 15, 15, 15, 15, 15, 15], 6)]
 
 def encSamples256 : List (List Nat × Nat) :=
-  [([32, 91, 11, 120, 0, 0, 0, 0, 0, 0], 6), ([0, 0, 7, 0, 0, 0], 3), ([255, 254, 1, 0, 0, 0, 0, 0, 0, 0, 0, 0, 0], 10), ([1, 300, 0, 0], 2)]
+  [([32, 91, 11, 120, 0, 0, 0, 0, 0, 0], 6), ([0, 0, 7, 0, 0, 0], 3), ([255, 254, 1, 0, 0, 0, 0, 0, 0, 0, 0, 0, 0], 10), ([1, 300, 0, 0], 2),
+   ([0, 0, 0, 200, 201, 202, 203], 4), ([0, 0, 1, 77, 78, 79], 3)]
 
 when_kernel Gzx.Gen.K04b.encEncode in
 /-- `Encode(toEncode, ecBytes)` on a fresh encoder (cache `[1]`) for the samples = the model's `encodeArr` -/
